@@ -42,6 +42,14 @@ CHECKS = {
             "Order of external calls (incl. operator calls on oracle values) is compared on every path up to the horizon, which exposes "
             "eager or re-ordered operand evaluation that return values hide.",
             "block interpreter is the checker's reading of the statement; horizon bounds loop unrolling"),
+    "C09": ("exhaustive enumeration of generated programs (skeletons, opcode-targeted snippets) and a complete sweep of a fixed stdlib corpus; "
+            "library graph compared with a reference CFG from dis metadata, under CPython 3.12 and 3.11",
+            "The program space is enumerated and the corpus swept completely; every block and successor edge is compared with the interpreter's "
+            "own opcode metadata.",
+            "reference classification of opcodes is completeness-guarded; only interpreters present in the image (3.12, 3.11)"),
+    "C11": ("exhaustive enumeration of (unsupported statement class x snippet variant x structural position x entry point)",
+            "The space statement-class x position is finite and small; it is enumerated completely from the running interpreter's ast module.",
+            "snippet table completeness-guarded; dead-code positions (after return) not enumerated"),
     "C16": ("exhaustive enumeration of closed CFGs x {input, J, JL, JLB}; iterator and concealed view of every (sub)graph compared "
             "with the hierarchy",
             "Every sub-region at every depth of every enumerated hierarchy is iterated and compared.", "bounded scope"),
